@@ -31,6 +31,19 @@ fn jstr(s: &str) -> String {
     o
 }
 
+// first failing input per (routine, case); the driver ignores cases listed as known findings
+pub struct Hits { seen: Vec<String>, pub n: usize }
+impl Hits {
+    pub fn new() -> Self { Hits { seen: vec![], n: 0 } }
+    pub fn hit(&mut self, routine: &str, case: &str, func: &str, input: &str, observed: &str) {
+        let key = format!("{}/{}", routine, case);
+        if self.seen.contains(&key) { return; }
+        self.seen.push(key);
+        self.n += 1;
+        report(routine, case, func, input, observed);
+    }
+}
+
 fn report(routine: &str, case: &str, func: &str, input: &str, observed: &str) {
     println!("{{\"routine\":{},\"case\":{},\"function\":{},\"input\":{},\"observed\":{}}}", jstr(routine), jstr(case), jstr(func), jstr(input), jstr(observed));
 }
@@ -101,9 +114,12 @@ mod b64 {
         for a in 0..=255u8 { for b in 0..=255u8 { inputs.push(vec![a, b]); } }
         for _ in 0..200000 { inputs.push(vec![rng.next() as u8, rng.next() as u8, rng.next() as u8]); }
         for _ in 0..2000 { let n = rng.below(300) as usize; inputs.push((0..n).map(|_| rng.next() as u8).collect()); }
+        for base in [1024usize, 4096, 8192, 16384, 65536] { for d in 0..6 { let n = base - 2 + d; inputs.push((0..n).map(|_| rng.next() as u8).collect()); } }
+        let mut h = Hits::new();
         for x in &inputs {
-            if let Some(o) = check_encode(x) { report("base64", "encode", "Base64::encode", &hex(x), &o); return true; }
-            if let Some(o) = check_roundtrip(x) { report("base64", "roundtrip", "Base64::decode", &hex(x), &o); return true; }
+            if let Some(o) = check_encode(x) { h.hit("base64", "encode", "Base64::encode", &hex(x), &o); }
+            if let Some(o) = check_roundtrip(x) { h.hit("base64", "roundtrip", "Base64::decode", &hex(x), &o); }
+            if h.n >= 2 { break; }
         }
         // foreign characters: every position of valid texts, padding-only groups, non-ASCII
         let foreign = ['!', '-', '_', ' ', '\n', '\u{0}', '\u{7f}', 'é', 'Ł', '\u{1F600}', '.', '*'];
@@ -114,10 +130,10 @@ mod b64 {
             for f in foreign { let mut s = base.to_string(); s.push(f); texts.push(s); }
         }
         for t in &texts {
-            if let Some(o) = check_foreign_seq(t) { report("base64", "foreign_seq", "Base64::decode_sequence", t, &o); return true; }
-            if let Some(o) = check_foreign(t) { report("base64", "foreign", "Base64::decode", t, &o); return true; }
+            if let Some(o) = check_foreign_seq(t) { h.hit("base64", "foreign_seq", "Base64::decode_sequence", t, &o); }
+            if let Some(o) = check_foreign(t) { h.hit("base64", "foreign", "Base64::decode", t, &o); }
         }
-        false
+        h.n > 0
     }
     pub fn replay(case: &str, input: &str) -> bool {
         let o = match case {
@@ -137,7 +153,12 @@ mod rng {
     use crate::range::Range;
 
     // executable forms of the clauses of contracts/range.vc for one range-spec
-    pub fn check_spec(len: u64, spec: &str) -> Option<(String, String)> {
+    pub fn check_spec(len: u64, spec: &str) -> Vec<(String, String)> {
+        let mut out = vec![];
+        check_spec_into(len, spec, &mut out);
+        out
+    }
+    fn check_spec_into(len: u64, spec: &str, out: &mut Vec<(String, String)>) {
         let s = spec.to_string();
         let r = panic::catch_unwind(move || Range::parse_range_in_content_range(len, &s));
         let parts: Vec<&str> = spec.split('-').collect();
@@ -145,32 +166,33 @@ mod rng {
         let b = if parts.len() > 1 { parts[1].trim() } else { "" };
         let na = a.parse::<u64>().ok();
         let nb = b.parse::<u64>().ok();
+        let strict = |t: &str| !t.is_empty() && t.chars().all(|c| c.is_ascii_digit());
         match r {
-            Err(_) => Some(("panic".into(), "panicked".into())),
+            Err(_) => out.push(("panic".into(), "panicked".into())),
             Ok(Ok(r)) => {
-                if !(r.start <= r.end && r.end <= len) { return Some(("range_ok".into(), format!("Ok({}-{}) violates start<=end<=len", r.start, r.end))); }
-                if !a.is_empty() && Some(r.start) != na { return Some(("range_ok".into(), format!("Ok start {} for first-byte-pos {}", r.start, a))); }
-                if !a.is_empty() && !b.is_empty() && Some(r.end) != nb { return Some(("range_ok".into(), format!("Ok end {} for last-byte-pos {}", r.end, b))); }
-                if a.is_empty() && !b.is_empty() { let n = nb.unwrap_or(0); let want = if n <= len { len - n } else { 0 }; if r.start != want { return Some(("range_ok".into(), format!("suffix {}: start {} expected {}", n, r.start, want))); } }
-                if r.end >= len { return Some(("end<len".into(), format!("Ok({}-{}) names offset {} which is not inside a file of {} bytes", r.start, r.end, r.end, len))); }
-                None
+                if !(r.start <= r.end && r.end <= len) { out.push(("range_ok".into(), format!("Ok({}-{}) violates start<=end<=len", r.start, r.end))); }
+                if !a.is_empty() && Some(r.start) != na { out.push(("range_ok".into(), format!("Ok start {} for first-byte-pos {}", r.start, a))); }
+                if !a.is_empty() && !b.is_empty() && Some(r.end) != nb { out.push(("range_ok".into(), format!("Ok end {} for last-byte-pos {}", r.end, b))); }
+                if a.is_empty() && !b.is_empty() { let n = nb.unwrap_or(0); let want = if n <= len { len - n } else { 0 }; if r.start != want { out.push(("range_ok".into(), format!("suffix {}: start {} expected {}", n, r.start, want))); } }
+                if r.end >= len { out.push(("end<len".into(), format!("Ok({}-{}) names offset {} which is not inside a file of {} bytes", r.start, r.end, r.end, len))); }
             }
             Ok(Err(e)) => {
-                if *e.status_code_reason_phrase.status_code != 416 { return Some(("is_416".into(), format!("error status {}", e.status_code_reason_phrase.status_code))); }
+                if *e.status_code_reason_phrase.status_code != 416 { out.push(("is_416".into(), format!("error status {}", e.status_code_reason_phrase.status_code))); }
                 // in-file ranges must be accepted
                 let inside = match (na, nb, a.is_empty(), b.is_empty()) {
-                    (Some(x), Some(y), false, false) => x <= y && y < len,
-                    (Some(x), _, false, true) => x < len,
-                    (_, Some(y), true, false) => 0 < y && y <= len,
+                    (Some(x), Some(y), false, false) => strict(a) && strict(b) && x <= y && y < len,
+                    (Some(x), _, false, true) => strict(a) && x < len,
+                    (_, Some(y), true, false) => strict(b) && 0 < y && y <= len,
                     _ => false,
                 };
-                if inside { Some(("accept".into(), format!("Err({}) for a range inside the file", e.message))) } else { None }
+                if inside { out.push(("accept".into(), format!("Err({}) for a range inside the file", e.message))); }
             }
         }
     }
 
     pub fn search(seed: u64) -> bool {
         let mut rng = Rng(seed | 1);
+        let mut h = Hits::new();
         let lens = [1380u64, 5, 0, 1, 2, 8191, 8192, 8193, u64::MAX - 1, u64::MAX];
         for &len in lens.iter() {
             let mut vals: Vec<String> = vec!["".into(), "0".into(), "1".into(), "x".into(), " 3 ".into(), "+2".into(), "-".into(), "18446744073709551615".into(), "18446744073709551616".into()];
@@ -178,17 +200,18 @@ mod rng {
             for _ in 0..4 { vals.push(rng.below(len.max(1)).to_string()); }
             for a in &vals { for b in &vals {
                 let spec = format!("{}-{}", a, b);
-                if let Some((clause, o)) = check_spec(len, &spec) {
-                    report("range", &clause, "Range::parse_range_in_content_range", &format!("{}|{}", len, spec), &o);
-                    return true;
+                for (clause, o) in check_spec(len, &spec) {
+                    h.hit("range", &clause, "Range::parse_range_in_content_range", &format!("{}|{}", len, spec), &o);
                 }
             } }
         }
-        false
+        h.n > 0
     }
     pub fn replay(_case: &str, input: &str) -> bool {
         let (l, spec) = input.split_once('|').unwrap();
-        if let Some((clause, o)) = check_spec(l.parse().unwrap(), spec) { report("range", &clause, "", input, &o); true } else { false }
+        let mut found = false;
+        for (clause, o) in check_spec(l.parse().unwrap(), spec) { if clause == _case { report("range", &clause, "", input, &o); found = true; } }
+        found
     }
 }
 
